@@ -427,6 +427,84 @@ func probeVsAuth(sameIP bool, n int) *engine.Scenario {
 	return sc
 }
 
+// probeHistory: two legitimate clients from two addresses have used two keys (in either order of
+// keys and addresses) before the probe arrives from one of those addresses or from a third one:
+// the probe is absorbed like any other, whatever the usage marks on the key list are.
+type histCase struct {
+	First  [2]int `json:"first"`  // (address, key) of the first legitimate connection
+	Second [2]int `json:"second"` // (address, key) of the second one
+	From   int    `json:"probe_from"`
+	N      int    `json:"n"`
+}
+
+func probeHistory(c histCase) *engine.Scenario {
+	type res struct {
+		closedAt time.Duration
+		read     int64
+		got      int
+		rst      bool
+	}
+	var r res
+	addrs := []string{"203.0.113.40", "203.0.113.41", "203.0.113.42"}
+	sc := &engine.Scenario{Name: "probe-history", Opt: vrt.Options{Horizon: 10 * time.Minute}}
+	sc.Body = func() {
+		r = res{}
+		vnet.Reset()
+		hk.ResetLogs()
+		keys := world.MixedKeys(4)
+		w := world.NewTCP(keys, 0, T)
+		w.Start()
+		tgt := world.StartTarget("93.184.216.34:80", func(t *world.Target, i int, cn *vnet.TCPConn) {
+			cn.Write([]byte("reply"))
+			t.ReadAll(i, cn)
+			cn.Close()
+		})
+		for i, use := range [][2]int{c.First, c.Second} {
+			cl := world.Dial(addrs[use[0]] + ":0")
+			cl.Send(world.EncodeStream(keys[use[1]], uint64(80+i), world.Addr("93.184.216.34:80"), []byte("hi")), 0)
+			cl.CloseWrite()
+			cl.ReadAll()
+			cl.Close()
+			vrt.WaitIdle()
+		}
+		probe := make([]byte, c.N)
+		io.ReadFull(vrt.DetRand(uint64(970+c.N)), probe)
+		pc := world.Dial(addrs[c.From] + ":0")
+		prd := vrt.Spawn("probe-reader", func() { pc.ReadAll() })
+		pc.Send(probe, 0)
+		vrt.Sleep(T + 30*time.Second)
+		srv := pc.C.Peer()
+		r = res{closedAt: srv.ClosedAt, read: srv.BytesRead, got: len(pc.Got), rst: srv.SentRST || pc.C.GotRST()}
+		pc.Close()
+		vrt.Join(prd)
+		vrt.WaitIdle()
+		w.Stop()
+		tgt.Ln.Close()
+	}
+	sc.Check = func(x *vrt.Exec) (string, bool, []*engine.Finding) {
+		fs := hk.Generic(x, hk.Opts{})
+		if len(fs) == 0 {
+			if r.closedAt != T || r.got != 0 || r.rst || r.read != int64(c.N) {
+				fs = append(fs, &engine.Finding{Sig: "probe-not-absorbed{after-usage}", Msg: fmt.Sprintf("probe of %d bytes after two legitimate clients had used two keys from two addresses: read %d bytes, wrote %d, closed at %v (want %v), reset=%v; case=%+v", c.N, r.read, r.got, r.closedAt, T, r.rst, c)})
+			}
+		}
+		return fmt.Sprint(r), true, fs
+	}
+	return sc
+}
+
+func histCases() []histCase {
+	var out []histCase
+	for _, k := range [][2]int{{1, 2}, {2, 1}, {0, 3}, {3, 0}, {1, 1}} {
+		for from := 0; from < 3; from++ {
+			for _, n := range []int{50, 60} {
+				out = append(out, histCase{First: [2]int{0, k[0]}, Second: [2]int{1, k[1]}, From: from, N: n})
+			}
+		}
+	}
+	return out
+}
+
 func pairScenarios() []*engine.Scenario {
 	return []*engine.Scenario{pairScenario(60, 80), pairScenario(10, 200), pairScenario(0, 51), replayPair(0), replayPair(2),
 		probeVsAuth(true, 60), probeVsAuth(false, 60)}
@@ -487,6 +565,11 @@ func grid(tier string) []Spec {
 
 func init() {
 	hk.Register("C06", func(ctx *engine.Ctx) {
+		for i, c := range histCases() {
+			if ctx.Mine(int64(i)) {
+				ctx.RunCase("probe-history", "E", probeHistory(c), c, nil)
+			}
+		}
 		for i, s := range grid(ctx.Tier) {
 			if !ctx.Mine(int64(i)) {
 				continue
@@ -504,6 +587,14 @@ func init() {
 	hk.Replayers["C06"] = func(ctx *engine.Ctx, rp engine.Replay) []*engine.Finding {
 		if strings.HasPrefix(rp.Unit, "probe-pair") || strings.HasPrefix(rp.Unit, "replay-pair") || strings.HasPrefix(rp.Unit, "probe-vs-auth") {
 			return engine.ReplayScenario(pairScenarios(), rp)
+		}
+		if rp.Unit == "probe-history" {
+			var c histCase
+			if err := json.Unmarshal(rp.Input, &c); err != nil {
+				return []*engine.Finding{{Sig: "BROKEN:bad-input", Msg: err.Error()}}
+			}
+			rp.Choices = nil
+			return engine.ReplayCase("probe-history", probeHistory(c), rp)
 		}
 		var s Spec
 		if err := json.Unmarshal(rp.Input, &s); err != nil {
